@@ -554,10 +554,12 @@ impl Range {
                 max,
                 scale,
                 offset,
-            } => Self::from_min_max(
-                *min as f64 * *scale + *offset,
-                *max as f64 * *scale + *offset,
-            ),
+            } => {
+                // A negative scale maps the minimum to the upper end of the value range
+                let a = *min as f64 * *scale + *offset;
+                let b = *max as f64 * *scale + *offset;
+                Self::from_min_max(a.min(b), a.max(b))
+            }
             RecordDataType::Integer { min, max } => Self::from_min_max(*min as f64, *max as f64),
         }
     }
